@@ -270,7 +270,12 @@ class VMFCACGMMTrainer:
         _, _, E = embedding.shape
         _, K, _ = affiliation.shape
 
-        masked_affiliation = affiliation * saliency[..., None, :]
+        # Hard masks (boolean / integer affiliations) weighted by counts
+        # (integer saliency) must not stay integer typed.
+        masked_affiliation = np.asarray(
+            affiliation * saliency[..., None, :],
+            dtype=np.result_type(affiliation, saliency, observation.real.dtype)
+        )
 
         if -2 in weight_constant_axis:
             weight = 1 / K
